@@ -17,8 +17,8 @@ EXPLANATION = (
     "converted to the declared sample type (astype/quantize) or packed by pack(), which refuses non-uint8 input - so no "
     "file is ever written at a width other than the header declares; (R2) each writer/reader pair (.tim, .dat, .spec, "
     ".fft, block.to_file/FilReader) agrees on headered-vs-raw layout and on the element type view; (R3) prep_outfile gives "
-    "the writer and the encoded header the same depth, and no call site declares one depth in `updates` and writes "
-    "another; (R4) the reader infers the sample count as floor(8*datalen/nbits/nchans); (R5) the .inf writer and reader "
+    "the writer and the encoded header the same depth on every path and for any caller-supplied `updates` (the 'nbits' entry "
+    "of the mapping handed to new_header and the FileWriter depth are one canonical value); (R4) the reader infers the sample count as floor(8*datalen/nbits/nchans); (R5) the .inf writer and reader "
     "iterate the same presto_inf table, which carries tstart, tsamp and dm, and every key it names exists; (R6) the SIGPROC "
     "writer and reader pack/unpack sub-byte samples with the same (stream) depth and bit order; (R7) requantisation clips to "
     "[0, 2^nbits - 1] before the cast. Not decided: "
@@ -248,54 +248,31 @@ def run(prog: Program, res: Result, tier: str) -> None:
     key = "prep_outfile:depth"
     ok3 = False
     if len(ctor) == 1:
-        from ..pathcond import path_conditions as _pc3
-        from ..poly import PolyEnv as _PE
         from ..normalform import canon as _canon3
         nb = [k.value for k in ctor[0].keywords if k.arg == "nbits"]
         newh = [c for c in calls_in_body(prep.node) if (dotted(c.func) or "").endswith("new_header") and c.args and isinstance(c.args[0], ast.Name)]
         if nb and len(newh) == 1:
             dname = newh[0].args[0].id
-            w_ex = fl.expand(nb[0], fl.cfg.node_for(ctor[0]))            # the depth the writer packs with
-            w_txt = _canon3(w_ex)
-            # the same value is recorded in the header updates whenever it differs from the input depth
-            sets = [s_ for s_ in body_walk(prep.node) if isinstance(s_, ast.Assign) and len(s_.targets) == 1 and isinstance(s_.targets[0], ast.Subscript)
-                    and norm(s_.targets[0].value) == dname and norm(s_.targets[0].slice) == "'nbits'"]
-            pc3 = _pc3(fl)
-            diff = _PE().poly(w_ex) - _PE().poly(ast.parse("self.nbits", mode="eval").body)
-            ok3 = len(sets) == 1 and _canon3(fl.expand(sets[0].value, fl.cfg.node_for(sets[0]))) == w_txt
-            if ok3:
-                f3 = pc3.knows(sets[0], "!=0", diff)
-                # recorded exactly when it differs (no other condition), decided before the header is derived, written before the writer is made
-                others = [f for f in pc3.facts_at(sets[0]) if f is not f3 and f.test_node == (f3.test_node if f3 else -1)]
-                ok3 = f3 is not None and not others and len([f for f in pc3.facts_at(sets[0])]) == len([f for f in pc3.facts_at(fl.cfg.node_for(newh[0]))]) + 1 and \
-                    fl.cfg.dominates(f3.test_node, fl.cfg.node_for(newh[0])) and \
-                    not fl.cfg.reachable(fl.cfg.node_for(newh[0])) & {fl.cfg.node_for(sets[0])}
+            w_txt = _canon3(fl.expand(nb[0], fl.cfg.node_for(ctor[0])))            # the depth the writer packs with
+            # the depth the derived header declares: the 'nbits' entry of the mapping given to new_header, on every path
+            h_txt = _canon3(fl.expand(ast.Subscript(value=ast.Name(id=dname, ctx=ast.Load()), slice=ast.Constant("nbits"), ctx=ast.Load()),
+                                      fl.cfg.node_for(newh[0])))
+            enc = [c for c in calls_in_body(prep.node) if (dotted(c.func) or "").endswith("encode_header") and c.args]
+            encoded = len(enc) == 1 and "new_header(" in _canon3(fl.expand(enc[0].args[0], fl.cfg.node_for(enc[0])))
+            ok3 = h_txt == w_txt and encoded
     if ok3:
-        res.ok("R3", prep, ctor[0], "writer depth and header nbits are the same value on every path", key=key)
+        res.ok("R3", prep, ctor[0], "the header that is encoded declares, on every path and for any caller-supplied updates, the depth "
+               "the writer packs with", key=key)
     else:
-        res.bad("R3", prep, prep.node, "prep_outfile no longer gives FileWriter and the encoded header the same nbits", construct="prep_outfile", key=key)
+        res.bad("R3", prep, prep.node, "prep_outfile does not give FileWriter and the encoded header the same nbits for every caller: a depth "
+                "declared through `updates` alone (or any other path) can differ from the writer's", construct="prep_outfile", key=key)
     nsites = 0
     for f in prog.all_funcs():
         for c in prep_calls(f):
             nsites += 1
-            kw = {k.arg: k.value for k in c.keywords}
-            upd = kw.get("updates")
-            if isinstance(upd, ast.Name):
-                ds = [d for d in flow_of(f).reaching(upd.id, flow_of(f).cfg.node_for(c)) if d.kind == "assign"]
-                upd = ds[0].value if len(ds) == 1 else upd
-            lit = dict_literal_keys(upd) if upd is not None else {}
             key = f"{f.qualname}:prep:{norm(c.args[0]) if c.args else ''}"
-            if lit is None:
-                res.bad("R3", f, c, "header updates are not a literal dict: cannot see whether a depth is declared", key=key)
-                continue
-            if "nbits" in lit:
-                if "nbits" in kw and norm(kw["nbits"]) == norm(lit["nbits"]):
-                    res.ok("R3", f, c, f"updates declare nbits={norm(lit['nbits'])} and the writer is given the same depth", key=key)
-                else:
-                    res.bad("R3", f, c, f"updates declare nbits={norm(lit['nbits'])} but the writer depth is "
-                            f"{norm(kw['nbits']) if 'nbits' in kw else 'the input depth'}", key=key)
-            else:
-                res.ok("R3", f, c, "depth comes only from the nbits argument (header follows it)", key=key)
+            if ok3:
+                res.ok("R3", f, c, "depth of header and writer are decided together inside prep_outfile", key=key)
     if nsites < 12:
         raise AnalysisError(f"only {nsites} prep_outfile call sites found (12 confirmed by hand)")
 
@@ -416,8 +393,11 @@ MUTANTS = [
      "old": "        data = np.fromfile(fftpath, dtype=np.float32)", "new": "        data = np.fromfile(fftpath, dtype=np.float64)"},
     {"id": "c04-prep-writer-input-depth", "file": H, "expect": "C04.R3",
      "old": "            mode=\"w+\",\n            nbits=nbits,", "new": "            mode=\"w+\",\n            nbits=self.nbits,"},
-    {"id": "c04-site-declares-other-depth", "file": "sigpyproc/block.py", "expect": "C04.R3",
-     "old": "        out_file = self.header.prep_outfile(filename, updates=updates, nbits=32)", "new": "        out_file = self.header.prep_outfile(filename, updates=updates)"},
+    {"id": "c04-revert-F29", "file": H, "expect": "C04.R3",
+     "old": "        if nbits is None:\n            nbits = updates.get(\"nbits\", self.nbits)\n        # The header must declare the depth the writer packs with\n        updates = {**updates, \"nbits\": nbits}\n",
+     "new": "        if nbits is None:\n            nbits = self.nbits\n        if nbits != self.nbits:\n            updates[\"nbits\"] = nbits\n"},
+    {"id": "c04-header-depth-only-when-given", "file": H, "expect": "C04.R3",
+     "old": "        updates = {**updates, \"nbits\": nbits}\n", "new": "        updates = {\"nbits\": nbits, **updates}\n"},
     {"id": "c04-nsamples-bytes", "file": "sigpyproc/io/sigproc.py", "expect": "C04.R4",
      "old": "8 * int(header[\"datalen\"]) // int(header[\"nbits\"]) // int(header[\"nchans\"])", "new": "int(header[\"datalen\"]) // int(header[\"nchans\"])"},
     {"id": "c04-inf-drop-dm", "file": "sigpyproc/params.py", "expect": "C04.R5",
@@ -441,6 +421,10 @@ MUTANTS += [
      "old": "            return unpack(data_ar, self.bitsinfo.nbits, bitorder=self.bitsinfo.bitorder)", "new": "            return unpack(data_ar, self.bitsinfo.nbits, bitorder=\"big\")"},
 ]
 TWINS = [
+    {"id": "c04-twin-site-depth-through-updates", "file": "sigpyproc/block.py",
+     "old": "        out_file = self.header.prep_outfile(filename, updates=updates, nbits=32)", "new": "        out_file = self.header.prep_outfile(filename, updates=updates)"},
+    {"id": "c04-twin-prep-store-form", "file": H,
+     "old": "        updates = {**updates, \"nbits\": nbits}\n", "new": "        updates = dict(updates)\n        updates[\"nbits\"] = nbits\n"},
     {"id": "c04-twin-guard-form", "file": F,
      "old": "        arr = np.asarray(arr).astype(self.bitsinfo.dtype, copy=False)\n",
      "new": "        if arr.dtype != self.bitsinfo.dtype:\n            msg = \"dtype mismatch\"\n            raise ValueError(msg)\n"},
